@@ -1,5 +1,6 @@
 import SlipVerif.Model.Num
 import SlipVerif.Lemmas.Num
+import SlipVerif.Lemmas.NumFix
 import Mathlib.Tactic.Linarith
 import Mathlib.Tactic.Ring
 /-
@@ -347,7 +348,180 @@ theorem gcdLoop_eq (fuel m n : Nat) (h : n < fuel) :
       congr 1
       rw [Nat.gcd_comm n (m % n), ← Nat.gcd_rec, Nat.gcd_comm]
 
+/-! ### Impl = Spec for the rounding divisions: each fixnum branch returns exactly the quotient and
+    remainder of the spec's division of the same two integers (for EVERY pair of integers with a
+    non-zero divisor; the int64 range only matters for the absence of wrap-around, Theorems/GenC05) -/
+
+theorem ceilFixGo_eq_spec (a b : Int) (hb : b ≠ 0) :
+    ceilDiv (a : Rat) (b : Rat) = .ok ((ceilFixGo a b).1, (((ceilFixGo a b).2 : Int) : Rat)) := by
+  obtain ⟨hid, h1, h2⟩ := ceilFixGo_spec a b hb
+  apply divBy_of_identity _ a b _ _ hb hid
+  rw [quot_decomp a b _ _ hb hid]
+  have := frac_neg_gt_neg_one (ceilFixGo a b).2 b (by
+    rcases lt_or_gt_of_ne hb with h | h
+    · right; exact ⟨h, h2 h⟩
+    · left; exact ⟨h, h1 h⟩)
+  apply ceil_unique <;> linarith [this.1, this.2]
+
+/-- the correct fixnum floor branch (`floorFix`) is the spec's floor division for both signs -/
+theorem floorFix_eq_spec (a b : Int) (hb : b ≠ 0) :
+    floorDiv (a : Rat) (b : Rat) = .ok ((floorFix a b).1, (((floorFix a b).2 : Int) : Rat)) := by
+  obtain ⟨hid, h1, h2⟩ := floorFix_spec a b hb
+  apply divBy_of_identity _ a b _ _ hb hid
+  rw [quot_decomp a b _ _ hb hid]
+  have := frac_nonneg_lt_one (floorFix a b).2 b (by
+    rcases lt_or_gt_of_ne hb with h | h
+    · right; exact ⟨h, h2 h⟩
+    · left; exact ⟨h, h1 h⟩)
+  apply floor_unique <;> linarith [this.1, this.2]
+
+/-- the fixnum floor branch as pinned is the spec's floor division for a positive divisor (for a
+    negative divisor it is not: `floorFixGo_neg_divisor_witness`, a known finding) -/
+theorem floorFixGo_eq_spec_partial (a b : Int) (hb : 0 < b) :
+    floorDiv (a : Rat) (b : Rat) = .ok ((floorFixGo a b).1, (((floorFixGo a b).2 : Int) : Rat)) := by
+  obtain ⟨hid, h1, h2⟩ := floorFixGo_spec_partial a b hb
+  have hb0 : b ≠ 0 := by omega
+  apply divBy_of_identity _ a b _ _ hb0 hid
+  rw [quot_decomp a b _ _ hb0 hid]
+  have := frac_nonneg_lt_one (floorFixGo a b).2 b (Or.inl ⟨hb, h1, h2⟩)
+  apply floor_unique <;> linarith [this.1, this.2]
+
+theorem truncFixGo_eq_spec (a b : Int) (hb : b ≠ 0) :
+    truncDiv (a : Rat) (b : Rat) = .ok ((truncFixGo a b).1, (((truncFixGo a b).2 : Int) : Rat)) := by
+  obtain ⟨hid, habs, hs1, hs2⟩ := truncFixGo_spec a b hb
+  apply divBy_of_identity _ a b _ _ hb hid
+  have hd := quot_decomp a b _ _ hb hid
+  generalize (truncFixGo a b).2 = r at *
+  generalize (truncFixGo a b).1 = q at *
+  have hbq : (b : Rat) ≠ 0 := by exact_mod_cast hb
+  -- sign of a / b from the signs of a and b; r has the sign of a
+  apply truncI_unique
+  · intro hx
+    rw [hd]
+    have : 0 ≤ (r : Rat) / (b : Rat) ∧ (r : Rat) / (b : Rat) < 1 := by
+      rcases lt_or_gt_of_ne hb with hneg | hpos
+      · -- b < 0, a / b ≥ 0 ⇒ a ≤ 0 ⇒ r ≤ 0
+        have ha : a ≤ 0 := by
+          by_contra hc
+          have hbq' : (b : Rat) < 0 := by exact_mod_cast hneg
+          have haq : (0 : Rat) < a := by exact_mod_cast (not_le.mp hc)
+          have := div_neg_of_pos_of_neg haq hbq'
+          linarith
+        exact frac_nonneg_lt_one r b (Or.inr ⟨hneg, by have := hs2 ha; omega, hs2 ha⟩)
+      · have ha : 0 ≤ a := by
+          by_contra hc
+          have hbq' : (0 : Rat) < b := by exact_mod_cast hpos
+          have haq : (a : Rat) < 0 := by exact_mod_cast (not_le.mp hc)
+          have := div_neg_of_neg_of_pos haq hbq'
+          linarith
+        exact frac_nonneg_lt_one r b (Or.inl ⟨hpos, hs1 ha, by have := hs1 ha; omega⟩)
+    constructor <;> linarith [this.1, this.2]
+  · intro hx
+    rw [hd]
+    have : -1 < (r : Rat) / (b : Rat) ∧ (r : Rat) / (b : Rat) ≤ 0 := by
+      rcases lt_or_gt_of_ne hb with hneg | hpos
+      · have ha : 0 ≤ a := by
+          by_contra hc
+          have hbq' : (b : Rat) < 0 := by exact_mod_cast hneg
+          have haq : (a : Rat) < 0 := by exact_mod_cast (not_le.mp hc)
+          have := div_pos_of_neg_of_neg haq hbq'
+          linarith
+        exact frac_neg_gt_neg_one r b (Or.inr ⟨hneg, hs1 ha, by have := hs1 ha; omega⟩)
+      · have ha : a ≤ 0 := by
+          by_contra hc
+          have hbq' : (0 : Rat) < b := by exact_mod_cast hpos
+          have haq : (0 : Rat) < a := by exact_mod_cast (not_le.mp hc)
+          have := div_pos haq hbq'
+          linarith
+        exact frac_neg_gt_neg_one r b (Or.inl ⟨hpos, by have := hs2 ha; omega, hs2 ha⟩)
+    constructor <;> linarith [this.1, this.2]
+
+theorem roundFixGo_eq_spec (a b : Int) (hb : b ≠ 0) :
+    roundDiv (a : Rat) (b : Rat) = .ok ((roundFixGo a b).1, (((roundFixGo a b).2 : Int) : Rat)) := by
+  obtain ⟨hid, habs, heven⟩ := roundFixGo_spec a b hb
+  apply divBy_of_identity _ a b _ _ hb hid
+  rw [quot_decomp a b _ _ hb hid]
+  obtain ⟨f1, f2, f3⟩ := frac_abs_le_half (roundFixGo a b).2 b hb habs
+  apply roundI_unique
+  · linarith
+  · linarith
+  · rintro (e | e)
+    · exact heven (f3 (Or.inr (by linarith)))
+    · exact heven (f3 (Or.inl (by linarith)))
+
+/-- Euclid's loop computes the spec's gcd of its two (non-negative) operands -/
+theorem gcdLoop_eq_spec (fuel m n : Nat) (h : n < fuel) :
+    gcdLoop fuel (m : Int) (n : Int) = gcdAll [(m : Int), (n : Int)] := by
+  rw [gcdLoop_eq fuel m n h]
+  simp [gcdAll, Int.gcd]
+
 end Impl
+
+/-! ## canonical form, whatever representation of a value an operator is given -/
+
+section Canonical
+open Impl
+
+/-- a representation is well formed when a fixnum object holds an int64 (a Go `Fixnum` always does);
+    a bignum object may hold ANY integer and a ratio object ANY rational (also with denominator 1):
+    Lisp code can build such non-canonical operands with `coerce` -/
+def Rep.WellFormed : Rep → Prop
+  | .fix i => inRange i
+  | _ => True
+
+/-- canonical: well formed, and the Go type is the one the value demands -/
+def Rep.Canonical (r : Rep) : Prop := r.WellFormed ∧ r.tag = typeOf r.value
+
+theorem canonInt_canonical (i : Int) : (canonInt i).Canonical ∧ (canonInt i).value = (i : Rat) := by
+  refine ⟨⟨?_, by rw [canonInt_value]; exact canonInt_tag i⟩, canonInt_value i⟩
+  unfold canonInt
+  by_cases h : isFix i = true
+  · rw [if_pos h]; exact (inRange_iff_isFix i).mpr h
+  · rw [if_neg h]; trivial
+
+theorem canonRat_canonical (r : Rat) : (canonRat r).Canonical ∧ (canonRat r).value = r := by
+  refine ⟨⟨?_, by rw [canonRat_value]; exact canonRat_tag r⟩, canonRat_value r⟩
+  unfold canonRat
+  by_cases h : r.den = 1
+  · rw [if_pos h]; exact (canonInt_canonical r.num).1.1
+  · rw [if_neg h]; trivial
+
+/-- `canonicalNumber` keeps the value and returns the canonical representation, whatever
+    representation of the value it is given -/
+theorem canonNumber_spec (r : Rep) (h : r.WellFormed) :
+    (canonNumber r).value = r.value ∧ (canonNumber r).Canonical := by
+  cases r with
+  | fix i =>
+    refine ⟨rfl, h, ?_⟩
+    show "fixnum" = typeOf ((i : Int) : Rat)
+    unfold typeOf
+    have : isFix i = true := (inRange_iff_isFix i).mp h
+    simp [this]
+  | big i => exact ⟨(canonInt_canonical i).2, (canonInt_canonical i).1⟩
+  | ratio q => exact ⟨(canonRat_canonical q).2, (canonRat_canonical q).1⟩
+
+/-- the canonical representation is a function of the value alone: two representations of the same
+    value (5 as a fixnum, in a bignum object, as the ratio 5/1) are brought to the same object -/
+theorem canonNumber_unique (r s : Rep) (hr : r.WellFormed) (hs : s.WellFormed) (h : r.value = s.value) :
+    canonNumber r = canonNumber s := by
+  have key : ∀ t : Rep, t.WellFormed → canonNumber t = canonRat t.value := by
+    intro t ht
+    cases t with
+    | fix i =>
+      show Rep.fix i = canonRat ((i : Int) : Rat)
+      unfold canonRat canonInt
+      have : isFix i = true := (inRange_iff_isFix i).mp ht
+      simp [this]
+    | big i =>
+      show canonInt i = canonRat ((i : Int) : Rat)
+      unfold canonRat; simp
+    | ratio q => rfl
+  rw [key r hr, key s hs, h]
+
+example : canonNumber (.big 5) = .fix 5 ∧ canonNumber (.ratio 5) = .fix 5 ∧ canonNumber (.fix 5) = .fix 5 := by decide
+
+end Canonical
+
 
 /-! ## non-vacuity -/
 
@@ -361,5 +535,9 @@ example : Impl.negFixnum (-9223372036854775808) = .big 9223372036854775808 := by
 example : Impl.roundFixGo 2 3 = (1, -1) ∧ Impl.roundFixGo 5 2 = (2, 1) ∧ Impl.roundFixGo (-7) 2 = (-4, 1) ∧ Impl.roundFixGo 5 (-2) = (-2, 1) := by decide
 example : Impl.ceilFixGo (-5) (-2) = (3, 1) ∧ Impl.truncFixGo (-5) 2 = (-2, -1) ∧ Impl.floorFixGo (-5) 2 = (-3, 1) := by decide
 example : Impl.gcdLoop 100 42 70 = 14 := by decide
+example : ceilDiv ((7 : Int) : Rat) ((-2 : Int) : Rat) = .ok (-3, ((1 : Int) : Rat)) := Impl.ceilFixGo_eq_spec 7 (-2) (by decide)
+example : roundDiv ((5 : Int) : Rat) ((2 : Int) : Rat) = .ok (2, ((1 : Int) : Rat)) := Impl.roundFixGo_eq_spec 5 2 (by decide)
+example : truncDiv ((-7 : Int) : Rat) ((2 : Int) : Rat) = .ok (-3, ((-1 : Int) : Rat)) := Impl.truncFixGo_eq_spec (-7) 2 (by decide)
+example : floorDiv ((-7 : Int) : Rat) ((2 : Int) : Rat) = .ok (-4, ((1 : Int) : Rat)) := Impl.floorFixGo_eq_spec_partial (-7) 2 (by decide)
 
 end SlipVerif.Num
